@@ -127,11 +127,22 @@ class Program:
         if tref.kind == "blob":
             return bytes(rng.choice([0, 1, 0xFE, 0xFF, 65]) for _ in range(rng.randrange(0, 5)))
         if tref.kind == "struct":
-            return self.gen_object(tref.struct, rng, safe, depth + 1)
+            return self.gen_tree(tref.struct, rng, safe, depth + 1)
         raise AssertionError(tref.kind)
 
+    def build(self, t):
+        """value tree -> instances of the generated classes"""
+        if isinstance(t, dict) and "__decl__" in t:
+            return self.cls(t["__decl__"])(**{k: self.build(v) for k, v in t["kwargs"].items()})
+        if isinstance(t, list):
+            return [self.build(x) for x in t]
+        return t
+
     def gen_object(self, decl, rng, safe=False, depth=0, want_all_optional=None):
-        """a valid instance of the generated class for `decl`"""
+        return self.build(self.gen_tree(decl, rng, safe, depth, want_all_optional))
+
+    def gen_tree(self, decl, rng, safe=False, depth=0, want_all_optional=None):
+        """a valid value of the generated class for `decl`, as a tree of constructor arguments"""
         kwargs = {}
         flat = list(C.flat(decl.body))
         lf = C.length_fields(decl.body)
@@ -184,13 +195,106 @@ class Program:
                     kwargs[ins.field] = val
                 sel = C.select_case(self.spec, ins, kwargs[ins.field], types_)
                 if sel is not None and sel.body:
-                    kwargs[ins.field + "_data"] = self.gen_object(
+                    kwargs[ins.field + "_data"] = self.gen_tree(
                         self.decls[C.case_class_name(decl.name, ins.field, sel)], rng, safe, depth + 1)
                 else:
                     kwargs[ins.field + "_data"] = None
             elif ins.tag == "break":
                 missing = False
-        return self.cls(decl.name)(**kwargs)
+        return {"__decl__": decl.name, "kwargs": kwargs}
+
+    # ------------------------------------------------------------ one declaration-violating change
+    def violations(self, tree, rng):
+        """all single declaration-violating edits applicable to a value tree: list of (path, kind, apply)"""
+        out = []
+        decl = self.decls[tree["__decl__"]]
+        kw = tree["kwargs"]
+        lf = C.length_fields(decl.body)
+        types_ = {}
+        missing = False
+        for ins in X.flatten_own(decl.body):
+            if ins.tag == "break":
+                missing = False
+            if ins.tag in ("field", "array") and ins.name is not None and getattr(ins, "value", None) is None:
+                if ins.optional and kw.get(ins.name) is None:
+                    missing = True
+                if missing:
+                    continue            # values after an absent optional are not written at all
+            if ins.tag == "field" and ins.name is not None and ins.value is None:
+                tref = X.resolve_type(self.spec, ins.type, ins.length if ins.type.split(":")[0] in ("string", "encoded_string") else None)
+                types_[ins.name] = tref
+                v = kw.get(ins.name)
+                if not ins.optional and not (ins.length in lf):
+                    out.append((ins.name, "required-none", lambda k=ins.name: kw.__setitem__(k, None)))
+                if v is None:
+                    continue
+                if tref.kind == "int":
+                    out.append((ins.name, "int-at-limit", lambda k=ins.name, t=tref: kw.__setitem__(k, t.limit)))
+                    out.append((ins.name, "int-far-beyond", lambda k=ins.name, t=tref: kw.__setitem__(k, t.limit * 7 + 3)))
+                if tref.kind == "enum":
+                    out.append((ins.name, "enum-ordinal-at-limit",
+                                lambda k=ins.name, t=tref: kw.__setitem__(k, self.enum_cls(t.enum)(t.limit))))
+                if tref.kind in ("string", "encoded_string") and ins.length is not None:
+                    if ins.length.isdigit():
+                        L = int(ins.length)
+                        out.append((ins.name, "string-too-long", lambda k=ins.name, L=L: kw.__setitem__(k, "a" * (L + 1))))
+                        if not ins.padded and L > 0:
+                            out.append((ins.name, "string-too-short", lambda k=ins.name, L=L: kw.__setitem__(k, "a" * (L - 1))))
+                    else:
+                        lfi = lf[ins.length]
+                        lim = X.resolve_type(self.spec, lfi.type).limit - 1 + lfi.offset
+                        if lim < 70000:
+                            out.append((ins.name, "string-exceeds-length-field", lambda k=ins.name, n=lim + 1: kw.__setitem__(k, "a" * n)))
+                if tref.kind == "struct" and isinstance(v, dict):
+                    for (pth, kind, ap) in self.violations(v, rng):
+                        out.append((ins.name + "." + pth, kind, ap))
+            elif ins.tag == "array":
+                tref = X.resolve_type(self.spec, ins.type)
+                v = kw.get(ins.name)
+                if v is None:
+                    continue
+                if ins.length is not None and ins.length.isdigit():
+                    out.append((ins.name, "array-too-long", lambda k=ins.name: kw.__setitem__(k, kw[k] + kw[k][:1] if kw[k] else kw[k] + [self._filler(ins)])))
+                    if int(ins.length) > 0:
+                        out.append((ins.name, "array-too-short", lambda k=ins.name: kw.__setitem__(k, kw[k][:-1])))
+                elif ins.length is not None:
+                    lfi = lf[ins.length]
+                    lim = X.resolve_type(self.spec, lfi.type).limit - 1 + lfi.offset
+                    if lim < 1000 and v:
+                        out.append((ins.name, "array-exceeds-length-field", lambda k=ins.name, n=lim + 1: kw.__setitem__(k, [kw[k][0]] * n)))
+                if tref.kind == "int" and v:
+                    out.append((ins.name + "[0]", "element-at-limit", lambda k=ins.name, t=tref: kw[k].__setitem__(0, t.limit)))
+                if tref.kind == "struct" and v and isinstance(v[-1], dict):
+                    for (pth, kind, ap) in self.violations(v[-1], rng):
+                        out.append((ins.name + "[-1]." + pth, kind, ap))
+            elif ins.tag == "switch":
+                tref = types_.get(ins.field)
+                if tref is None or kw.get(ins.field) is None:
+                    continue
+                sel = C.select_case(self.spec, ins, kw[ins.field], types_)
+                cd = kw.get(ins.field + "_data")
+                if sel is not None and sel.body:
+                    out.append((ins.field + "_data", "case-data-none", lambda k=ins.field + "_data": kw.__setitem__(k, None)))
+                    others = [c for c in ins.cases if c.body and c is not sel]
+                    if others:
+                        o = others[0]
+                        out.append((ins.field + "_data", "case-data-wrong-kind",
+                                    lambda k=ins.field + "_data", o=o: kw.__setitem__(
+                                        k, self.gen_tree(self.decls[C.case_class_name(decl.name, ins.field, o)], rng))))
+                    if isinstance(cd, dict):
+                        for (pth, kind, ap) in self.violations(cd, rng):
+                            out.append((ins.field + "_data." + pth, kind, ap))
+                else:
+                    withbody = [c for c in ins.cases if c.body]
+                    if withbody:
+                        o = withbody[0]
+                        out.append((ins.field + "_data", "case-data-where-none-expected",
+                                    lambda k=ins.field + "_data", o=o: kw.__setitem__(
+                                        k, self.gen_tree(self.decls[C.case_class_name(decl.name, ins.field, o)], rng))))
+        return out
+
+    def _filler(self, ins):
+        return 0
 
     # ------------------------------------------------------------ checks on one class
     def to_model(self, obj):
